@@ -1,5 +1,6 @@
 import VncModel.Basic.Proto
 import VncModel.Update.Model
+import VncModel.Update.Defer
 /-! Line-protocol driver for the update-scheduling model (C02). Same script as harness/c02.c. -/
 open VncModel VncModel.Proto VncModel.Rgn VncModel.Update
 
@@ -8,6 +9,9 @@ structure DState where
                     progSlice := 0, maxRects := 0 }
   haveScreen : Bool := false
   clients : List (Nat × Client) := []
+  timers : List (Nat × Int × Int) := []     -- per client: cl->startDeferring (sec, usec)
+  defer : Int := 0                          -- screen->deferUpdateTime (ms)
+  clockUs : Int := 1000000000               -- virtual clock of the harness, microseconds
 
 def showRect (r : Rect) : String := s!"{r.x1},{r.y1},{r.x2},{r.y2}"
 
@@ -83,12 +87,30 @@ def dstep (s : DState) (toks : List String) : DState × List String :=
       | some c => (setClient s n (request s.scr c (incr != 0) x y w h), ["ok"])
       | none => (s, ["bad-op"])
     | _, _ => (s, ["bad-op"])
+  | ["defer", ms] =>
+    match parseInt? ms with
+    | some ms => ({ s with defer := ms }, ["ok"])
+    | none => (s, ["bad-op"])
+  | ["clock", us] =>
+    match parseInt? us with
+    | some us => ({ s with clockUs := s.clockUs + us }, ["ok"])
+    | none => (s, ["bad-op"])
+  | ["ptr", x, y] =>
+    match ints? [x, y] with
+    | some [x, y] =>
+      if s.clients.isEmpty then (s, ["bad-op"]) else
+      ({ s with scr := { s.scr with cursorX := x, cursorY := y } }, ["ok"])
+    | _ => (s, ["bad-op"])
   | ["update", n] =>
     match n.toNat? with
     | some n =>
       match getClient s n with
       | some c =>
-        let (c', sent) := updateClient s.scr c
+        let tm := (s.timers.find? (fun p => p.1 == n)).map (·.2) |>.getD (0, 0)
+        let now : Int × Int := (s.clockUs / 1000000, s.clockUs % 1000000)
+        let (t', sent) := updateClientTimed s.scr s.defer now { c := c, startSec := tm.1, startUsec := tm.2 }
+        let c' := t'.c
+        let s := { s with timers := (n, t'.startSec, t'.startUsec) :: s.timers.filter (fun p => p.1 != n) }
         let line := match sent with
           | none => "none"
           | some m =>
